@@ -329,6 +329,7 @@ static int oracle(char* b, size_t n, const char* sp, char conv, int mod, const s
 static char SHOWN[8192], JOIN[8192];
 static size_t SHOWN_LEN;
 
+static const char* cur_shape_feat = NULL;     /* element feature of the container shape in progress, for the labels */
 static const char* valtype(var a) { return a ? c_str(type_of(a)) : "NULL"; }
 
 /* runs show_to(o, String, 0) as the reference into SHOWN, then show_to on both sinks at every
@@ -336,8 +337,10 @@ static const char* valtype(var a) { return a ? c_str(type_of(a)) : "NULL"; }
 static int show_protocol(var o, const char* name) {
   static var whole = NULL;
   if (!whole) whole = new_raw(String);
-  char lab[160];
+  char lab[240];
+  char tnb[200];
   const char* tn = valtype(o);
+  if (cur_shape_feat) { snprintf(tnb, sizeof tnb, "%s/%s", tn, cur_shape_feat); tn = tnb; }
   SHOWN[0] = 0; SHOWN_LEN = 0;
   assign(whole, $S(""));
   volatile int sr = -1;
@@ -587,10 +590,14 @@ static void missing_conv(char conv) {
 #define NKINDS  7
 #define NGEN    (NKINDS * 18)
 #define NSHAPES_ALL (NSHAPES + NNEST + NGEN)
-static const char* shape_name[NSHAPES_ALL];
-static char shape_name_buf[NSHAPES_ALL][120];
-static const char* shape_elem[NSHAPES_ALL];     /* element feature for the label (generated shapes) */
-static char shape_elem_buf[NSHAPES_ALL][48];
+#define NUSER   48          /* containers of plain user structs of sizes 1,3,5,8,12,20 */
+#define NBASE   10          /* base containers the views are laid over */
+#define NVIEW   10
+#define NSHAPES_MAX (NSHAPES_ALL + NUSER + NBASE * NVIEW)
+static const char* shape_name[NSHAPES_MAX];
+static char shape_name_buf[NSHAPES_MAX][160];
+static const char* shape_elem[NSHAPES_MAX];     /* element feature for the label (generated shapes) */
+static char shape_elem_buf[NSHAPES_MAX][64];
 
 /* element value grids that stress each element type's own show text */
 enum { ET_INT, ET_FLT, ET_STR };
@@ -723,7 +730,29 @@ static var make_shape(int h) {
 ** Array/List/Tuple/Table/Tree elements: their own prefix and suffix around the recursively
 ** expected body; anything else: its own show_to.  Returns the new offset, or cap on overflow. */
 
-static int is_container(var ty) { return ty == Array || ty == List || ty == Tuple || ty == Table || ty == Tree; }
+
+/* plain user structs (only a Show instance; cmp, hash, assign are the library's memory defaults) */
+static int u_show(var self, var out, int pos, int n) {
+  const unsigned char* c = self;
+  return print_to(out, pos, "U%i(%i:%i)", $I(n), $I(c[0]), $I(c[n - 1]));
+}
+#define UTYPE(N) struct U##N { char c[N]; }; \
+  static int U##N##_Show(var self, var out, int pos) { return u_show(self, out, pos, N); } \
+  var U##N = Cello(U##N, Instance(Show, U##N##_Show, NULL));
+UTYPE(1) UTYPE(3) UTYPE(5) UTYPE(8) UTYPE(12) UTYPE(20)
+static const int USZ[6] = { 1, 3, 5, 8, 12, 20 };
+static var utype(int i) { return i == 0 ? U1 : i == 1 ? U3 : i == 2 ? U5 : i == 3 ? U8 : i == 4 ? U12 : U20; }
+static int is_utype(var ty) { for (int i = 0; i < 6; i++) if (ty == utype(i)) return 1; return 0; }
+/* a value of user type i in a scratch block (the containers copy it) */
+static var umk(int i, int v) {
+  static union { char b[sizeof(struct Header) + 32]; var align; } blk;
+  memset(&blk, 0, sizeof blk);
+  char* o = header_init(blk.b, utype(i), AllocStack);
+  for (int j = 0; j < USZ[i]; j++) o[j] = (char)(v + j);
+  return o;
+}
+
+static int is_container(var ty) { return ty == Array || ty == List || ty == Tuple || ty == Table || ty == Tree || ty == Slice; }
 
 static size_t app(char* buf, size_t o, size_t cap, const char* t, size_t n) {
   if (o >= cap || o + n + 1 > cap) return cap;
@@ -741,6 +770,12 @@ static size_t expect_text(var obj, char* buf, size_t o, size_t cap, int depth, s
     else if (ty == Float) { ((struct Float*)sF)->val = c_float(obj); sa = sF; }
     else { ((struct String*)sS)->val = c_str(obj); sa = sS; }
     show_to(sa, tmp, 0); vf.executions++;
+    o = app(buf, o, cap, c_str(tmp), strlen(c_str(tmp)));
+  } else if (ty && is_utype(ty)) {
+    var sa = new_raw(ty);                 /* a stand-alone object holding the same bytes */
+    assign(sa, obj);
+    show_to(sa, tmp, 0); vf.executions++;
+    del_raw(sa);
     o = app(buf, o, cap, c_str(tmp), strlen(c_str(tmp)));
   } else if (ty && is_container(ty) && depth < 4) {
     show_to(obj, tmp, 0); vf.executions++;
@@ -772,58 +807,163 @@ static size_t expect_text(var obj, char* buf, size_t o, size_t cap, int depth, s
   return o;
 }
 
-static void show_mode(void) {
-  for (int hi_ = 0; hi_ < NSHAPES_ALL; hi_++) {
-    /* simplest first: hand-written shapes, generated single-type shapes, then the nested ones */
-    int h = hi_ < NSHAPES ? hi_ : hi_ < NSHAPES + NGEN ? hi_ + NNEST : hi_ - NGEN;
-    if (R_on && R_h >= 0 && R_h != h) continue;
-    var o = h < NSHAPES ? make_shape(h) : make_generated(h);
-    int is_map = type_of(o) == Table || type_of(o) == Tree;
-    vf_watchdog(60);
-    vf_set_cur("show h=%d | %s", h, shape_name[h]);
-    cur_valtype = valtype(o);
-    char lab[160];
-    int proto_bad = show_protocol(o, shape_name[h]);
-    if (proto_bad && SHOWN_LEN == 0) continue;
-    size_t wl = SHOWN_LEN;
-    var e;
-    /* generic parse: prefix up to the first opening bracket, body, last matching closing bracket */
-    size_t ob = strcspn(SHOWN, "[{(");
-    vf.evaluations++;
-    if (ob == wl) { snprintf(lab, sizeof lab, "show/%s/no-bracket", c_str(type_of(o))); vf_violation(lab, NULL, "show text '%s' has no opening bracket", printable(SHOWN, wl)); continue; }
-    char close = SHOWN[ob] == '[' ? ']' : SHOWN[ob] == '{' ? '}' : ')';
-    char* cb = strrchr(SHOWN, close);
-    if (!cb || (size_t)(cb - SHOWN) <= ob) { snprintf(lab, sizeof lab, "show/%s/no-closing-bracket", c_str(type_of(o))); vf_violation(lab, NULL, "show text '%s' has no closing bracket", printable(SHOWN, wl)); continue; }
-    size_t bodylen = (size_t)(cb - SHOWN) - ob - 1;
-    /* expected text: own prefix + ", "-join of the elements' own show texts (stand-alone objects of the
-    ** same value, nested containers element by element) in iteration order + own suffix */
-    size_t count = 0;
-    size_t jo = expect_text(o, JOIN, 0, sizeof JOIN, 0, &count);
-    if (jo >= sizeof JOIN) continue;
-    const char* feat = len(o) == 0 ? "empty" : len(o) == 1 ? "one" : "many";
-    char tyfeat[100];
-    if (shape_elem[h]) snprintf(tyfeat, sizeof tyfeat, "%s/%s/%s", c_str(type_of(o)), feat, shape_elem[h]);
-    else snprintf(tyfeat, sizeof tyfeat, "%s/%s", c_str(type_of(o)), feat);
-    if (count != len(o)) {
-      snprintf(lab, sizeof lab, "show/%s/iteration-count", tyfeat);
-      vf_violation(lab, NULL, "iteration of %s yields %zu elements, len is %zu", shape_name[h], count, len(o));
-      continue;
-    }
-    if (wl != jo || memcmp(SHOWN, JOIN, jo) != 0) {
-      size_t eb = jo > ob + 1 ? jo - ob - 1 - strlen(cb) : 0;     /* expected body: same prefix and suffix lengths */
-      snprintf(lab, sizeof lab, "show/%s/body-is-not-join-of-elements", tyfeat);
-      vf_violation(lab, NULL, "show of %s has body '%s'; the elements' own show texts (stand-alone objects of the same values) joined by \", \" in iteration order are '%s'",
-        shape_name[h], printable(SHOWN + ob + 1, bodylen), jo > ob + 1 ? printable(JOIN + ob + 1, eb) : "?");
-    }
-    if (count_nt && count >= 2) vf.nontrivial++;
-    if (!strstr(SHOWN + ob, "At 0x") && vf_want_sample()) vf_sample("show(%s) body '%s'", shape_name[h], printable(SHOWN + ob + 1, bodylen));
-    struct spec s = { '$', M_NONE, 0, 0, 0, "%$", "%$" };
-    if (proto_bad) continue;
-    /* %$ in every context */
-    struct value v = { VK_ANY, 0, 0, 0, 0, NULL, o, shape_name[h] };
-    /* contexts() builds case strings of the grid form; the value index 1000+h names the shape */
-    if (wl < 1500) contexts(&s, 1000 + h, &v, o, SHOWN, wl);
+/* kind: 0 a container (everything is checked), 1 a view that shows its items in brackets (no len check),
+** 2 an object shown without items (only: %$ == show_to, on both sinks, at every start) */
+static void check_shape(int h, var o, int kind) {
+  vf_watchdog(60);
+  vf_set_cur("show h=%d | %s", h, shape_name[h]);
+  cur_valtype = valtype(o);
+  char lab[200];
+  cur_shape_feat = shape_elem[h];
+  int proto_bad = show_protocol(o, shape_name[h]);
+  cur_shape_feat = NULL;
+  if (proto_bad && SHOWN_LEN == 0) return;
+  size_t wl = SHOWN_LEN;
+  struct spec s = { '$', M_NONE, 0, 0, 0, "%$", "%$" };
+  struct value v = { VK_ANY, 0, 0, 0, 0, NULL, o, shape_name[h] };
+  if (kind == 2) {
+    if (!proto_bad && wl < 1500) contexts(&s, 1000 + h, &v, o, SHOWN, wl);
+    return;
   }
+  /* generic parse: prefix up to the first opening bracket, body, last matching closing bracket */
+  size_t ob = strcspn(SHOWN, "[{(");
+  vf.evaluations++;
+  if (ob == wl) { snprintf(lab, sizeof lab, "show/%s/no-bracket", c_str(type_of(o))); vf_violation(lab, NULL, "show text '%s' has no opening bracket", printable(SHOWN, wl)); return; }
+  char close = SHOWN[ob] == '[' ? ']' : SHOWN[ob] == '{' ? '}' : ')';
+  char* cb = strrchr(SHOWN, close);
+  if (!cb || (size_t)(cb - SHOWN) <= ob) { snprintf(lab, sizeof lab, "show/%s/no-closing-bracket", c_str(type_of(o))); vf_violation(lab, NULL, "show text '%s' has no closing bracket", printable(SHOWN, wl)); return; }
+  size_t bodylen = (size_t)(cb - SHOWN) - ob - 1;
+  /* expected text: own prefix + ", "-join of the elements' own show texts (stand-alone objects of the
+  ** same value, nested containers element by element) in iteration order + own suffix */
+  size_t count = 0;
+  volatile size_t jo = 0;
+  var e = VF_CATCH(jo = expect_text(o, JOIN, 0, sizeof JOIN, 0, &count));
+  if (e) { vf_note("show h=%d (%s): iterating the object raised %s, its show text could not be judged", h, shape_name[h], vf_exc_name(e)); return; }
+  if (jo >= sizeof JOIN) return;
+  const char* feat = kind == 1 ? "view" : len(o) == 0 ? "empty" : len(o) == 1 ? "one" : "many";
+  char tyfeat[160];
+  if (shape_elem[h]) snprintf(tyfeat, sizeof tyfeat, "%s/%s/%s", c_str(type_of(o)), feat, shape_elem[h]);
+  else snprintf(tyfeat, sizeof tyfeat, "%s/%s", c_str(type_of(o)), feat);
+  if (kind == 0 && count != len(o)) {
+    snprintf(lab, sizeof lab, "show/%s/iteration-count", tyfeat);
+    vf_violation(lab, NULL, "iteration of %s yields %zu elements, len is %zu", shape_name[h], count, len(o));
+    return;
+  }
+  if (wl != jo || memcmp(SHOWN, JOIN, jo) != 0) {
+    size_t eb = jo > ob + 1 + strlen(cb) ? jo - ob - 1 - strlen(cb) : 0;     /* expected body: same prefix and suffix lengths */
+    snprintf(lab, sizeof lab, "show/%s/body-is-not-join-of-elements", tyfeat);
+    vf_violation(lab, NULL, "show of %s has body '%s'; the elements' own show texts (stand-alone objects of the same values) joined by \", \" in iteration order are '%s'",
+      shape_name[h], printable(SHOWN + ob + 1, bodylen), jo > ob + 1 ? printable(JOIN + ob + 1, eb) : "?");
+  }
+  if (count_nt && count >= 2) vf.nontrivial++;
+  if (!strstr(SHOWN + ob, "At 0x") && vf_want_sample()) vf_sample("show(%s) body '%s'", shape_name[h], printable(SHOWN + ob + 1, bodylen));
+  if (proto_bad) return;
+  /* %$ in every context; contexts() builds case strings of the grid form, the value index 1000+h names the shape */
+  if (wl < 1500) contexts(&s, 1000 + h, &v, o, SHOWN, wl);
+}
+
+/* containers whose key / value / element type is a plain user struct of size 1, 3, 5, 8, 12, 20 */
+static var make_user(int h) {
+  int u = h - NSHAPES_ALL, i = u / 8, role = u % 8, m = (i + 1) % 6;
+  static const char* ROLE[8] = { "Table(U->Int)", "Table(Int->U)", "Tree(U->Int)", "Tree(Int->U)", "Array(U)", "List(U)", "Table(U->U')", "Tree(U->U')" };
+  var T_ = utype(i), M_ = utype(m), o = NULL;
+  switch (role) {
+  case 0: o = new_raw(Table, T_, Int); break;
+  case 1: o = new_raw(Table, Int, T_); break;
+  case 2: o = new_raw(Tree, T_, Int); break;
+  case 3: o = new_raw(Tree, Int, T_); break;
+  case 4: o = new_raw(Array, T_); break;
+  case 5: o = new_raw(List, T_); break;
+  case 6: o = new_raw(Table, T_, M_); break;
+  case 7: o = new_raw(Tree, T_, M_); break;
+  }
+  for (int j = 0; j < 3; j++) {
+    static union { char b[sizeof(struct Header) + 32]; var align; } k2;
+    var uv = umk(i, 10 * (j + 1));
+    switch (role) {
+    case 0: case 2: set(o, uv, $I(100 + j)); break;
+    case 1: case 3: set(o, $I(7 * j), uv); break;
+    case 4: case 5: push(o, uv); break;
+    case 6: case 7: {
+      /* the key has to survive the making of the value: copy it aside */
+      memcpy(&k2, (char*)uv - sizeof(struct Header), sizeof(struct Header) + USZ[i]);
+      var key = k2.b + sizeof(struct Header);
+      set(o, key, umk(m, 50 + j));
+      break; }
+    }
+  }
+  snprintf(shape_name_buf[h], sizeof shape_name_buf[h], "%s with U = user struct of %d bytes%s, 3 entries", ROLE[role], USZ[i], role >= 6 ? " and U' the next size" : "");
+  snprintf(shape_elem_buf[h], sizeof shape_elem_buf[h], "%s/struct-of-%d-bytes", ROLE[role], USZ[i]);
+  shape_name[h] = shape_name_buf[h]; shape_elem[h] = shape_elem_buf[h];
+  return o;
+}
+
+static var fn_odd(var x) { var ty = type_of(x); return (ty == Int ? (c_int(x) & 1) : 1) ? x : NULL; }
+static var fn_same(var x) { return x; }
+
+static const char* BASEN[NBASE] = { "Array(Int)[50..54]", "List(String)[a,b,c,d]", "Tuple(1,s,0.5,9)", "Table(Int 0..4 -> 100+7i)", "Table(String -> Int)",
+  "Table(Int 10,20,30 -> String)", "Tree(Int 0..4 -> 100+7i)", "Tree(String -> Int)", "Tree(Int 10,20,30 -> String)", "Array(Int)[] (empty)" };
+static const char* VIEWN[NVIEW] = { "slice(x)", "slice(x, 2)", "slice(x, 1, 3)", "slice(x, _, _, 2)", "reverse(x)", "slice(x, _, _, -2)",
+  "filter(x, f)", "map(x, f)", "zip(x, x2)", "enumerate(x)" };
+
+static var make_base(int b) {
+  var o = NULL;
+  static const char* SK[4] = { "a", "b", "c", "d" };
+  switch (b) {
+  case 0: o = new_raw(Array, Int); for (int i = 0; i < 5; i++) push(o, $I(50 + i)); break;
+  case 1: o = new_raw(List, String); for (int i = 0; i < 4; i++) push(o, $S((char*)SK[i])); break;
+  case 2: o = new_raw(Tuple, I_(1), S_("s"), F_(0.5), I_(9)); break;
+  case 3: o = new_raw(Table, Int, Int); for (int i = 0; i < 5; i++) set(o, $I(i), $I(100 + 7 * i)); break;
+  case 4: o = new_raw(Table, String, Int); for (int i = 0; i < 4; i++) set(o, $S((char*)SK[i]), $I(i + 1)); break;
+  case 5: o = new_raw(Table, Int, String); for (int i = 0; i < 3; i++) set(o, $I(10 * (i + 1)), $S((char*)SK[i])); break;
+  case 6: o = new_raw(Tree, Int, Int); for (int i = 0; i < 5; i++) set(o, $I(i), $I(100 + 7 * i)); break;
+  case 7: o = new_raw(Tree, String, Int); for (int i = 0; i < 4; i++) set(o, $S((char*)SK[i]), $I(i + 1)); break;
+  case 8: o = new_raw(Tree, Int, String); for (int i = 0; i < 3; i++) set(o, $I(10 * (i + 1)), $S((char*)SK[i])); break;
+  case 9: o = new_raw(Array, Int); break;
+  }
+  return o;
+}
+
+static void show_views(void) {
+  for (int b = 0; b < NBASE; b++) {
+    int h0 = NSHAPES_ALL + NUSER + b * NVIEW;
+    if (R_on && R_h >= 0 && (R_h < h0 || R_h >= h0 + NVIEW)) continue;
+    var x = make_base(b);
+    var x2 = new_raw(Array, Int, $I(1), $I(2), $I(3), $I(4), $I(5));
+    var fo = $(Function, fn_odd), fs = $(Function, fn_same);
+    /* the views are stack objects of this block */
+    var views[NVIEW];
+    int made = NVIEW;
+    views[0] = slice(x);
+    views[1] = slice(x, $I(2));
+    views[2] = slice(x, $I(1), $I(3));
+    views[3] = slice(x, _, _, $I(2));
+    views[4] = reverse(x);
+    views[5] = slice(x, _, _, $I(-2));
+    views[6] = filter(x, fo);
+    views[7] = map(x, fs);
+    views[8] = zip(x, x2);
+    views[9] = enumerate(x);
+    for (int vw = 0; vw < made; vw++) {
+      int h = h0 + vw;
+      if (R_on && R_h >= 0 && R_h != h) continue;
+      snprintf(shape_name_buf[h], sizeof shape_name_buf[h], "%s over x = %s", VIEWN[vw], BASEN[b]);
+      snprintf(shape_elem_buf[h], sizeof shape_elem_buf[h], "%s/over-%s", VIEWN[vw], c_str(type_of(x)));
+      shape_name[h] = shape_name_buf[h]; shape_elem[h] = shape_elem_buf[h];
+      check_shape(h, views[vw], vw < 6 ? 1 : 2);
+    }
+  }
+}
+
+static void show_mode(void) {
+  for (int hi_ = 0; hi_ < NSHAPES_ALL + NUSER; hi_++) {
+    /* simplest first: hand-written shapes, generated single-type shapes, the nested ones, then user structs */
+    int h = hi_ < NSHAPES ? hi_ : hi_ < NSHAPES + NGEN ? hi_ + NNEST : hi_ < NSHAPES_ALL ? hi_ - NGEN : hi_;
+    if (R_on && R_h >= 0 && R_h != h) continue;
+    var o = h < NSHAPES ? make_shape(h) : h < NSHAPES_ALL ? make_generated(h) : make_user(h);
+    check_shape(h, o, 0);
+  }
+  show_views();
 }
 
 /* ---- length ladder ------------------------------------------------------------------------
@@ -1852,7 +1992,8 @@ int main(int argc, char** argv) {
     recycle_mode();
   } else if (strcmp(mode, "show") == 0) {
     show_mode();
-    vf_extra("container_shapes", "%d", NSHAPES_ALL);
+    vf_extra("container_shapes", "%d", NSHAPES_ALL + NUSER);
+    vf_extra("view_shapes", "%d", NBASE * NVIEW);
   } else {
     for (const char* c = convs; *c; c++) {
       if (R_on && R_c && *c != R_c) continue;
